@@ -1,4 +1,4 @@
 SPECIFICATION Spec
-CONSTANTS Workers = {w1, w2, w3}  MaxIter = 4  AllowCancel = FALSE  BodiesEnd = TRUE  PreCancelled = TRUE  SyncFlag = FALSE
+CONSTANTS ParamSet <- P_pre  AllowCancel = FALSE  BodiesEnd = TRUE  SyncFlag = FALSE
 INVARIANTS NothingOnADeadContext
 CHECK_DEADLOCK FALSE
